@@ -67,7 +67,7 @@ def lossy_then_forged(mode, peer, drop):
         # the forged answer: no MAC, no auth flag, empty user, the right engine id / msgID / request-id
         body = ber.scoped_pdu(st.engine_id, b"", ber.pdu(2, req["request_id"], 0, 0, [ber.varbind((1, 3, 6, 1), ber.OCT(b"FORGED"))]))
         return [ber.msg_v3(req["msg_id"], 0, st.engine_id, st.boots, st.time, b"", b"", b"", body)]
-    kw = dict(engine_id=None, user=c13.client_user(st), timeout=0.15)
+    kw = dict(engine_id=None, user=c13.client_user(st), timeout=0.5)
     if mode == "sync":
         from gufo.snmp.sync_client import SnmpSession
         agent = e2e.ThreadAgent(lambda dg: [(0, x) for x in plan(dg)])
